@@ -201,6 +201,20 @@ class SubjectAnalysis:
                              f'`{a.text()[:50]}` is an xvalue bound to the by-value parameter `{params[i]}` of Observer::operator(): the first observer moves the value away, every later observer of the round receives a moved-from object', key=f'SUB.4|consumed')
                 else:
                     self.add('SUB.4', True, f'{short}::notify: argument {i} is passed as an lvalue / to a reference', c.shortloc())
+        # SUB.4 (second half): the round works on its own copy of every by-value argument.  notify()'s parameter types are the pack itself;
+        # a reference where the pack element is a value type aliases the caller's object, which an observer (or the caller, re-entrantly) may change
+        pack = S[S.index('<') + 1:S.rindex('>')] if '<' in S else ''
+        want = [t.strip() for t in _split_targs(pack)] if pack.strip() else []
+        notify = f
+        got = [p_['ctype'] for p_ in notify.d['params']]
+        if len(want) == len(got):
+            for i, (w_, g_) in enumerate(zip(want, got)):
+                norm_ = lambda t: t.replace(' ', '')
+                if norm_(w_) == norm_(g_): self.add('SUB.4', True, f'{short}::notify: parameter {i} has the type of the pack element ({g_})', notify.shortloc())
+                elif not w_.rstrip().endswith('&') and g_.rstrip().endswith('&'):
+                    self.add('SUB.4', False, f'{short}::notify: parameter {i} has the type of the pack element', notify.shortloc(),
+                             f'the pack element is the value type `{w_}` but notify() takes `{g_}`: the round aliases the caller\'s object instead of holding its own copy — an observer that changes that object (or the caller re-entering) changes what the later observers of the same round receive', key='SUB.4|aliased')
+                else: self.add('SUB.4', None, f'{short}::notify: parameter {i} has the type of the pack element', notify.shortloc(), f'pack element `{w_}`, parameter `{g_}`')
         # RE.2: the round owns the observer it calls
         for c in calls: self._ownership(S, short, c)
         # path rules: SUB.2 / SUB.6 / RE.1 / RE.4 / SUB.1
@@ -225,6 +239,26 @@ class SubjectAnalysis:
                                  f'the delivery loop iterates the member `{cont}`' + (': a callback that subscribes/unsubscribes invalidates the iteration' if cont == OBS else
                                  ': the snapshot is shared between nested notify() calls — a callback that calls notify() refills/clears the buffer the outer round is walking, the outer round skips the remaining observers'), key='RE.1|snapshot-local')
                     else: self.add('RE.1', True, f'{short}::notify: the delivery loop iterates `{cont}`, a snapshot local to this call', deliver.shortloc(), key='RE.1|snapshot-local')
+                # the snapshot takes every entry: whether an observer is muted (or valid) is its state *at its turn*, which an earlier
+                # callback of the round may change, so no entry may be left out when the snapshot is filled
+                first_cb = oc[0] if oc else len(E)
+                fvis = [(i, c) for i, c in loop_visits(E, conds) if c == OBS and i < first_cb and E[i].node.id != dcond]
+                fb = [i for i, c in fvis] + [min([i for i, c in vis] + [first_cb])]
+                for k in range(len(fb) - 1):
+                    lo, hi = fb[k], fb[k + 1]
+                    if hi <= lo or (P.end == 'loop' and hi >= len(E)): continue
+                    ins = [e for e in E[lo:hi] if e.kind == 'call' and e.obj is not None and e.obj not in self.fields and e.name.split('::')[-1] in INSERTS]
+                    if ins: continue
+                    mute = [e for e in E[lo:hi] if e.kind in ('call', 'vcall', 'enter', 'consult') and ((e.name or '').split('::')[-1] in ('isMuted', 'muted') or (e.name or '').endswith('isMuted'))]
+                    if not mute:
+                        # the condition of the skipped insertion, by its text (a member access spelled differently)
+                        mute = [e for e in E[lo:hi] if e.kind == 'branch' and e.node is not None and 'mute' in (e.node.text() or '').lower()]
+                    inst = f'{short}::notify: every entry of m_observers is taken into the round\'s snapshot'
+                    if mute:
+                        self.add('RE.4', False, inst, mute[0].site, 'an observer that is muted when notify() is entered is left out of the snapshot: the mute state is read at the start of the round instead of at the observer\'s turn — '
+                                 'an observer unmuted by an earlier callback of the same round is not called, and a muted observer that is invalidated during the round is never removed', key='RE.4|snapshot-filter')
+                    elif any(e.kind == 'branch' for e in E[lo:hi]):
+                        self.add('RE.4', None, inst, E[lo].site, 'an entry is left out of the snapshot under a condition that was not recognised')
                 if oc:
                     walk = [e for e in E[oc[0]:] if e.kind == 'call' and e.obj == OBS and e.name.split('::')[-1] in ('begin', 'cbegin', 'rbegin', 'front', 'back', 'before_begin')
                             and not any(x.kind == 'enter' and x.name.endswith(('unsubscribeById',)) for x in [])]
@@ -551,6 +585,18 @@ def analyse(facts, rep):
         a = SubjectAnalysis(facts, rep); a.run()
         _cache.clear(); _cache[key] = a
     return _cache[key]
+
+
+def _split_targs(s):
+    """split a template argument list at top-level commas"""
+    out = []; depth = 0; cur = ''
+    for ch in s:
+        if ch in '<([': depth += 1
+        elif ch in '>)]': depth -= 1
+        if ch == ',' and depth == 0: out.append(cur); cur = ''
+        else: cur += ch
+    if cur.strip(): out.append(cur)
+    return out
 
 
 def emit(facts, rep, rules, floors, text=RULE_TEXT, res=None):
